@@ -139,6 +139,9 @@ type JPolicy struct {
 	Conds     []JCond     `json:"conds"`
 	Ancestors []JAncestor `json:"ancestors"`
 	NTargets  int         `json:"ntargets"`
+	// number of targetRefs of kind Service that name a Service in graph.ReferencedServices (each of them makes
+	// attachPolicyToService run once)
+	SvcRefd int `json:"svcRefd"`
 }
 
 type JBTP struct {
@@ -293,6 +296,11 @@ func Summarize(g *graph.Graph) JSummary {
 		}
 		for _, a := range pol.Ancestors {
 			jp.Ancestors = append(jp.Ancestors, JAncestor{Ref: ancRef(a.Ancestor), Conds: conds(a.Conditions)})
+		}
+		for _, tr := range pol.TargetRefs {
+			if _, ok := g.ReferencedServices[tr.Nsname]; ok && string(tr.Kind) == "Service" {
+				jp.SvcRefd++
+			}
 		}
 		s.Policies = append(s.Policies, jp)
 	}
@@ -703,6 +711,10 @@ type Line struct {
 	PrepErr  *bool  `json:"prepErr,omitempty"`  // the reload result the REAL handler passed to status preparation
 	FailKind string `json:"failKind,omitempty"` // why reloadErr (the truth) is set: apply-failed | stale-after-plus-endpoints-only-update
 	H        *HInfo `json:"h,omitempty"`        // batch history so far (input + observations for the Lean handler model)
+	// handler stream, only when NGINX runs the last applied configuration (reloadErr=false): the Gateway statuses a FRESH
+	// handler issues for the same graph, i.e. the real status.PrepareGatewayRequests with a nil reload result, applied by the
+	// real setters (reference of the judge clause programmed:false-after-successful-reload)
+	Fresh []JGatewayStatus `json:"fresh,omitempty"`
 	// fragment stream only (see fragment.go): the flat scenario, input of PipelineStatusTie.toFragmentV
 	Flat *c02.Flat `json:"flat,omitempty"`
 	Tags      map[string]int `json:"tags,omitempty"`
